@@ -206,9 +206,12 @@ theorem WFS_norm : (s : Stmt) → WFS s → WFS (normS s)
   | .reset v, h => by simp only [WFS, normS] at h ⊢; obtain ⟨nm, rfl⟩ := h; exact ⟨nm, by simp [norm]⟩
   | .prt f args out, h => by
     simp only [WFS] at h
-    obtain ⟨h1, rfl, h3, h4⟩ := h
+    obtain ⟨h1, h3, h4, h5⟩ := h
     simp only [WFS, normS]
-    exact ⟨WFparseL_norm args h1, trivial, fun hf => normL_ne_nil args (h3 hf), grpAlone_norm args h4⟩
+    refine ⟨WFparseL_norm args h1, fun hf => normL_ne_nil args (h3 hf), grpAlone_norm args h4, ?_⟩
+    cases out with
+    | none => trivial
+    | some p => obtain ⟨r, o⟩ := p; exact WFparse_norm o h5
   | .expr e, h => by simp only [WFS, normS] at h ⊢; exact WFparse_norm e h
 theorem WFSL_norm : (l : StmtL) → WFSL l → WFSL (normSL l)
   | .nil, _ => trivial
@@ -262,5 +265,66 @@ theorem renName_injective (c c' : Char) (i i' : Nat) (h : renName c i = renName 
 theorem lclTok_is_renName (i : Nat) : (lclTok i).s = renName 'l' i := by
   show "__l" ++ toString i = "__" ++ (String.singleton 'l' ++ toString i)
   rw [← String.append_assoc]; rfl
+
+/-! ### the canonical names resolve back to the variables they were written for -/
+
+/-- the names declared for `n` variables of kind `c` numbered from `b` (`@global __g22, __g23;`, `function f (__p0, __p1)`,
+    `@local __l0, __l1;`) in declaration order -/
+def declNames (c : Char) : Nat → Nat → List String
+  | _, 0 => []
+  | b, n + 1 => renName c b :: declNames c (b + 1) n
+
+/-- position of a name in a declaration list (the parser's linear / hashed search, first match), counted from `i` -/
+def findName (nm : String) : List String → Nat → Option Nat
+  | [], _ => none
+  | x :: r, i => if x = nm then some i else findName nm r (i + 1)
+
+theorem findName_decl (c : Char) : ∀ (n b i j : Nat), j < n → findName (renName c (b + j)) (declNames c b n) i = some (i + j)
+  | 0, _, _, _, h => absurd h (Nat.not_lt_zero _)
+  | n + 1, b, i, 0, _ => by simp [declNames, findName]
+  | n + 1, b, i, j + 1, h => by
+    have hne : renName c b ≠ renName c (b + (j + 1)) := by
+      intro e; have := (renName_injective _ _ _ _ e).2; omega
+    have ih := findName_decl c n (b + 1) (i + 1) j (by omega)
+    simp only [declNames, findName, hne, if_false]
+    rw [show b + (j + 1) = b + 1 + j by omega, ih]
+    congr 1; omega
+
+theorem findName_other (c c' : Char) (hc : c ≠ c') (x : Nat) : ∀ (n b i : Nat), findName (renName c' x) (declNames c b n) i = none
+  | 0, _, _ => rfl
+  | n + 1, b, i => by
+    have hne : renName c b ≠ renName c' x := by
+      intro e; exact hc (renName_injective _ _ _ _ e).1
+    simp only [declNames, findName, hne, if_false]
+    exact findName_other c c' hc x n (b + 1) (i + 1)
+
+/-- name resolution of parse_primary_ident: a local first, then a parameter, then a global (each answered with kind and number) -/
+def resolveName (nL nP gb nG : Nat) (nm : String) : Option (Char × Nat) :=
+  match findName nm (declNames 'l' 0 nL) 0 with
+  | some i => some ('l', i)
+  | none =>
+    match findName nm (declNames 'p' 0 nP) 0 with
+    | some i => some ('p', i)
+    | none =>
+      match findName nm (declNames 'g' gb nG) gb with
+      | some i => some ('g', i)
+      | none => none
+
+theorem resolve_local (nL nP gb nG i : Nat) (h : i < nL) : resolveName nL nP gb nG (renName 'l' i) = some ('l', i) := by
+  have := findName_decl 'l' nL 0 0 i h
+  simp only [Nat.zero_add] at this
+  simp [resolveName, this]
+
+theorem resolve_param (nL nP gb nG i : Nat) (h : i < nP) : resolveName nL nP gb nG (renName 'p' i) = some ('p', i) := by
+  have h0 := findName_other 'l' 'p' (by decide) i nL 0 0
+  have := findName_decl 'p' nP 0 0 i h
+  simp only [Nat.zero_add] at this
+  simp [resolveName, h0, this]
+
+theorem resolve_global (nL nP gb nG i : Nat) (h : i < nG) : resolveName nL nP gb nG (renName 'g' (gb + i)) = some ('g', gb + i) := by
+  have h0 := findName_other 'l' 'g' (by decide) (gb + i) nL 0 0
+  have h1 := findName_other 'p' 'g' (by decide) (gb + i) nP 0 0
+  have := findName_decl 'g' nG gb gb i h
+  simp [resolveName, h0, h1, this]
 
 end Hawk.Deparse
